@@ -86,7 +86,7 @@ func wedgeWatch(name string) (tick func(what string), stop func()) {
 					seen, since = cur, time.Now()
 					continue
 				}
-				if idle := time.Since(since); idle > 2*time.Minute {
+				if idle := time.Since(since); idle > 75*time.Second {
 					buf := make([]byte, 1<<20)
 					n := runtime.Stack(buf, true)
 					fmt.Printf("--- FAIL: %s\n    WEDGE: no progress for %s after: %s\n    a request, reply or shutdown step never returned (a goroutine holds a lock for ever); goroutines:\n%s\n", name, idle.Round(time.Second), what, buf[:n])
